@@ -635,10 +635,23 @@ def r_same_group(F, V):
     R = Result("R-SAME-GROUP", F.cfg)
     root = "raw::RawTableInner::is_in_same_group"
     body = F.bodies.get(root)
-    if body is None:
-        R.undec("%s not found" % root)
-        return R
     W = _width(F)
+    if body is None:
+        # the helper may have been inlined at its only call site: look for the same computation (a division by the group
+        # width of a wrapping_sub) in rehash_in_place and its closures
+        alt = "raw::RawTableInner::rehash_in_place"
+        ab = F.bodies.get(alt)
+        cands = [alt] + [c for c in F.bodies if c.startswith(alt + "::{closure")] if ab is not None else []
+        has = False
+        for c in cands:
+            cb_ = F.bodies[c]
+            for i, k, s in cb_.stmts():
+                if s["k"] == "assign" and s["rv"]["k"] == "binop" and s["rv"]["op"] == "Div" and s["rv"]["b"]["k"] == "const" and s["rv"]["b"].get("val") == W:
+                    has = True
+        if not has:
+            R.undec("%s not found (and no inlined group-number computation in rehash_in_place)" % root)
+            return R
+        root, body = alt, ab
     bodies = [body] + [F.bodies[c] for c in F.reachable_fns(root) if c.startswith(root + "::{closure")]
     # closure upvars -> creator operands
     upmap = {}
